@@ -470,8 +470,11 @@ def monitor(case, o1, o2, mrecs=None, second=False, restored=None):
     cfg_delay = int(case[0].split()[2])
     expr = {}
     expr_all = collections.defaultdict(set)
+    eflags_seen = collections.defaultdict(list)                        # expiry flags of the LOCK requests of (db, key, lockid), in order
     for ln in case[1:]:
         f = ln.split()
+        if f[0] == "req" and f[2] == "L":
+            eflags_seen[(int(f[14]), int(f[6]), int(f[5]))].append(int(f[9]))
         if f[0] == "req" and f[2] == "L" and int(f[10]) > 0:
             expr[(int(f[14]), int(f[6]), int(f[5]))] = int(f[10])      # latest Expried asked for (db, key, lockid)
             expr_all[(int(f[14]), int(f[6]), int(f[5]))].add(int(f[10]))
@@ -592,6 +595,10 @@ def monitor(case, o1, o2, mrecs=None, second=False, restored=None):
             continue
         if forbidden:
             why = "delay-taken-from-first-holder" if h["aoftime"] != 255 else "never-persist-flag"
+            if why == "never-persist-flag" and any(not (e & 0x200) for e in eflags_seen.get(k, [])[:-1]):
+                # the hold was taken (and persisted) with other terms and only later re-locked / updated with the never-persist
+                # flag: its earlier records stay in the log and nothing withdraws them
+                why = "persisted-before-it-was-updated-to-never-persist"
             hits.append(("never-persist-hold-restored:" + why, "hold %s carries the never-persist flag (aofTime=%d) and is held again after the restart" % (k, h["aoftime"])))
         if not live:
             hits.append(("expired-hold-restored" + tag(k), "hold %s had expired %d s before the restart and is held again" % (k, -remaining)))
